@@ -3,6 +3,7 @@
 //!
 //! usage: fd_probe list                       -> "<id> <name> <number of parameter values>" per scenario
 //!                                               (plan scenario field = id + 1000 * parameter)
+//!        fd_probe variants                   -> "<family> <param> <operation> <label>" for the argument-domain families
 //!        fd_probe batch <plan> <scratch>     -> plan lines: `<scenario id> <case id> <scope> <nr> <k> <ret> [<count> [<scope2> <nr2> <k2> <ret2> [<low mask>]]]`
 //!                                               (scope -1: no injection)
 //!
@@ -21,6 +22,7 @@
 //!   tear-down (outside the window)
 #[path = "/verif/engines/sysmon/marker.rs"]
 mod marker;
+mod args;
 
 use std::io::Write as _;
 use std::os::fd::{AsRawFd as _, IntoRawFd as _};
@@ -1332,6 +1334,11 @@ const SCENARIOS: &[Scn] = &[
     ("fs_read_size", 8, s_fs_read_size),
     ("recvmsg_scm_rights", 112, s_recvmsg_scm_rights),
     ("scm_rights_stream", 1, s_scm_rights_stream),
+    // argument-domain variants (args.rs); `fd_probe variants` lists the valid parameter values
+    ("arg_path", args::PATH_NPARAMS, args::s_arg_path),
+    ("arg_timeout", args::TIMEOUT_NPARAMS, args::s_arg_timeout),
+    ("arg_openopts", args::OPENOPTS_NPARAMS, args::s_arg_openopts),
+    ("arg_misc", args::MISC.len() as i64, args::s_arg_misc),
 ];
 
 fn main() {
@@ -1342,6 +1349,7 @@ fn main() {
                 println!("{i} {n} {np}");
             }
         }
+        Some("variants") => args::print_variants(),
         Some("batch") => {
             let plan = std::fs::read_to_string(&args[2]).expect("plan file");
             let scratch = args[3].clone();
